@@ -508,3 +508,16 @@ func anyImport() int { return int(verif_uf_u64("anyImport", 0)) }
 //@     invariant -1 <= rangeindex && rangeindex < len(c.m.ImportSection)
 //@     invariant anyImport() <= rangeindex ==> c.m.ImportSection[anyImport()].Type != wasm.ExternTypeMemory
 //@   nosafety
+
+// ---- C14: memory.size is the current length of the memory, in pages: the length read from the memory's
+// slot (in place for a local memory, through the exporter's instance for an imported one), shifted right by
+// 16. The length can be 2^32, so it must be read in full - the code reads 32 bits (recorded known finding).
+//@ prop C14
+//@ case memory.size (c *Compiler) lowerCurrentOpcode()
+//@   requires c.ssaBuilder != nil && c.loweringState.pc >= 0 && c.loweringState.pc+1 < len(c.wasmFunctionBody) && c.wasmFunctionBody[c.loweringState.pc] == wasm.OpcodeMemorySize
+//@   requires !c.loweringState.unreachable && len(c.loweringState.values) < 1<<40
+//@   ensures[length-shifted-to-pages-and-pushed] gg("lastOp") == int(ssa.OpcodeUshr) && int(stackAt(c, 0)) == gg("lastRet") && verif_ghost_map("M:isConst", uint64(gg("lastV2"))) == 1 && verif_ghost_map("M:constVal", uint64(gg("lastV2"))) == 16 && ssa.IsLoaded(ssa.Value(gg("lastV")))
+//@   ensures[local-memory-length-from-its-slot] c.offset.LocalMemoryBegin >= 0 ==> ssa.LoadedFrom(ssa.Value(gg("lastV"))) == c.moduleCtxPtrValue && ssa.LoadedAt(ssa.Value(gg("lastV"))) == uint64(c.offset.LocalMemoryLen().U32())
+//@   ensures[imported-memory-length-through-the-exporters-instance] c.offset.LocalMemoryBegin < 0 ==> ssa.LoadedAt(ssa.Value(gg("lastV"))) == memoryInstanceBufSizeOffset && ssa.IsLoaded(ssa.LoadedFrom(ssa.Value(gg("lastV")))) && ssa.LoadedFrom(ssa.LoadedFrom(ssa.Value(gg("lastV")))) == c.moduleCtxPtrValue && ssa.LoadedAt(ssa.LoadedFrom(ssa.Value(gg("lastV")))) == uint64(c.offset.ImportedMemoryBegin.U32())
+//@   ensures[memory-size-reads-the-length-in-full] ssa.LoadedAs(ssa.Value(gg("lastV"))) == ssa.TypeI64
+//@   nosafety keep-pre
